@@ -152,6 +152,56 @@ pub fn main(out: &mut Out, o: &Opts) {
             emit(out, bits, &seq);
         }
     }
+    // one big environment: a 16-bit universe filled until the unique table holds tens of thousands of nodes,
+    // then the operations that reset a set, and queries (state that only shows at scale)
+    {
+        let bits = 16usize;
+        let mut rng = Rng::new(o.seed ^ 0x5f);
+        let rounds = if o.thorough { 10 } else { 6 };
+        for variant in 0..3 {
+            let mut seq = vec![];
+            // rounds of inserts, a complement against the universe and an intersection: every round leaves
+            // thousands of new nodes in the table (about 80 000 after six rounds)
+            for _ in 0..rounds {
+                for _ in 0..700 {
+                    seq.push(Op::Ins(0, rng.below(4096) as usize));
+                }
+                seq.push(Op::Univ(1));
+                seq.push(Op::Cmp(1, 0));
+                for _ in 0..300 {
+                    seq.push(Op::Ins(1, rng.below(4096) as usize));
+                }
+                seq.push(Op::Int(0, 1));
+            }
+            match variant {
+                0 => {
+                    // both sets become the same constant: nothing but the sets' own handles refers to the other leaf
+                    seq.push(Op::Emp(1));
+                    seq.push(Op::Emp(0));
+                    seq.push(Op::Ins(0, 5));
+                    seq.push(Op::Univ(1));
+                }
+                1 => {
+                    seq.push(Op::Univ(0));
+                    seq.push(Op::Univ(1));
+                    seq.push(Op::Ins(1, 7));
+                    seq.push(Op::Cmp(0, 1));
+                    seq.push(Op::Emp(1));
+                    seq.push(Op::Ins(1, 9));
+                }
+                _ => {
+                    seq.push(Op::Cmp(0, 0));
+                    seq.push(Op::Uni(0, 1));
+                    seq.push(Op::Ins(0, 9));
+                }
+            }
+            for e in [0usize, 5, 7, 9, 100, 2047] {
+                seq.push(Op::Has(0, e));
+                seq.push(Op::Has(1, e));
+            }
+            emit(out, bits, &seq);
+        }
+    }
     // random histories, bits <= 5
     let mut rng = Rng::new(o.seed ^ 0x5e);
     let n = if o.thorough { 20_000 } else { 1_500 };
